@@ -180,6 +180,37 @@ pub fn run(ctx: &mut Ctx) {
     });
     ctx.require(&r, &["ok_value", "error"]);
 
+    // whole centuries: every multiple of 1200 months up to the full span, on the pool dates
+    let cents: Vec<i64> = (-99..=99).map(|c| c * 1200).collect();
+    let cr = &cents;
+    let nc = cents.len() as u64;
+    let r = ctx.sweep_each("whole_century_offsets_on_pool_dates", "boundary pool of dates x every multiple of 1200 months in +/-118,800 x {Date, Timestamp, OracleDate} x {add, sub}", pdates.len() as u64 * nc, 256, |idx, acc| {
+        let n = pd[(idx / nc) as usize];
+        let k = cr[(idx % nc) as usize];
+        let c = cal.at(n);
+        let date = Date::try_from_days(n).unwrap();
+        let iv = IntervalYM::try_from_months(k as i32).unwrap();
+        let t = 45_296_789_012i64;
+        let ts = Timestamp::new(date, Time::try_from_usecs(t).unwrap());
+        let od = OracleDate::new(date, Time::try_from_usecs(t / US_SEC * US_SEC).unwrap());
+        acc.states += 1;
+        for sub in [false, true] {
+            let keff = if sub { -k } else { k };
+            let (ny, nm) = add_months(c.y, c.m, keff);
+            let exists = (1..=9999).contains(&ny) && c.d <= month_len(ny as i32, nm);
+            let day = if exists { Some(cal.day_number(ny as i32, nm, c.d) as i64) } else { None };
+            acc.t(3);
+            acc.traces += 1;
+            if exists { acc.cls("ok_value") } else { acc.cls("error"); acc.nontrivial += 1; }
+            let got = guard(|| (if sub { date.sub_interval_ym(iv) } else { date.add_interval_ym(iv) }.map(|x| x.usecs()).ok(), if sub { ts.sub_interval_ym(iv) } else { ts.add_interval_ym(iv) }.map(|x| x.usecs()).ok(), if sub { od.sub_interval_ym(iv) } else { od.add_interval_ym(iv) }.map(|x| x.usecs()).ok()));
+            let want = (day.map(|d| d * US_DAY), day.map(|d| d * US_DAY + t), day.map(|d| d * US_DAY + t / US_SEC * US_SEC));
+            if got != Ok(want) {
+                acc.fail("C09:whole-centuries:month-arith-mismatch", idx, || (format!("{:04}-{:02}-{:02} {} {k} months through Date / Timestamp / OracleDate", c.y, c.m, c.d, if sub { "-" } else { "+" }), format!("{want:?}"), format!("{got:?}"), String::new()));
+            }
+        }
+    });
+    ctx.require(&r, &["ok_value", "error"]);
+
     // last day of month
     let r = ctx.sweep("last_day_of_month", "all dates: Date; Timestamp at 3 rotating critical times; OracleDate at 2 whole-second times", total, 4096, |range, acc| {
         let mut c = cal.at(cal.min_day + range.start as i32);
